@@ -919,7 +919,13 @@ func (nfs *Nfs) NFSPROC3_COMMIT(args nfstypes.COMMIT3args) nfstypes.COMMIT3res {
 		errRet(op, &reply.Status, nfstypes.NFS3ERR_INVAL)
 		return reply
 	}
-	ok := op.CommitFh()
+	// Commit a transaction of our own and wait for it: everything logged
+	// before it becomes durable with it. (Txn.Flush() flushes up to the
+	// position of the last commit, which a transaction that the journal
+	// refused as too large resets to zero; a COMMIT after such a failure
+	// would return without having flushed anything.)
+	ip.WriteInode(op.Atxn)
+	ok := op.Commit()
 	if ok {
 		reply.Status = nfstypes.NFS3_OK
 		reply.Resok.Verf = nfs.verf
